@@ -163,6 +163,7 @@ int main(int argc, char **argv) {
         int lam = args.i("lambda", 128);
         for (auto &k: K) if (k.name == "SecretKeySet" || k.name == "CloudKeySet") { rng.reseed(seed + lam); roundtrip_one(k, 2, g); }
     }
+    if (out.nsamples == 0) out.sample(J().s("mode", mode).u("evaluations", out.evaluations));
     out.finish();
     return 0;
 }
